@@ -21,3 +21,15 @@ b, e = '<!--COUNTS-BEGIN-->', '<!--COUNTS-END-->'
 s = s[:s.index(b) + len(b)] + '\n' + '\n'.join(rows) + '\n' + s[s.index(e):]
 open(root + '/DESIGN.md', 'w').write(s)
 print('\n'.join(rows))
+
+# ---- list of known findings (section 11) ----
+b2, e2 = '<!--FINDINGS-BEGIN-->', '<!--FINDINGS-END-->'
+s = open(root + '/DESIGN.md').read()
+if b2 in s:
+    items = []
+    for l in open(root + '/KNOWN_FINDINGS.txt'):
+        m = re.match(r'finding: property=(C\d+) key=(\S+) (.*)', l.strip())
+        if m: items.append('* **%s** `%s` — %s' % (m.group(1), m.group(2), m.group(3)))
+    s = s[:s.index(b2) + len(b2)] + '\n' + '\n'.join(items) + '\n' + s[s.index(e2):]
+    open(root + '/DESIGN.md', 'w').write(s)
+    print('known findings listed:', len(items))
